@@ -156,6 +156,37 @@ def reconcileOthers (d : PDesc) (c : Cfg) (now : Int) : Except Err (Option PDesc
   if d.parts.any (deletable d c now) then .ok (some { d with parts := d.parts.filter (fun p => !deletable d c now p) })
   else .ok none
 
+
+/-! ### clocks with a sub-second part
+
+`reconcile()` hands `time.Now()` — an instant with nanoseconds — to both handlers, while every stored timestamp
+is `time.Now().Unix()`, the instant truncated DOWN to the second. The handlers compare in whole seconds:
+`IsInactiveSince(since)` is `StateTimestamp < since.Unix()` with `since = now.Add(-delay)`, and
+`PartitionOwnersCountUpdatedBefore(before)` is `UpdatedTimestamp < before.Unix()`. Instants are modelled in
+milliseconds; `unixSec` is `Time.Unix()` (floor). -/
+
+/-- `time.Time.Unix()` of an instant given in milliseconds (floor; `Int./` with a positive divisor) -/
+def unixSec (ms : Int) : Int := ms / 1000
+
+/-- `partition.IsInactiveSince(now.Add(-delay)) && PartitionOwnersCount == 0`, `now` in milliseconds -/
+def deletableMs (d : PDesc) (c : Cfg) (nowMs : Int) (p : Part) : Bool :=
+  c.deleteAfter > 0 && p.id != c.pid && p.state == sInactive && p.stateTs < unixSec (nowMs - c.deleteAfter * 1000) &&
+  ownersCount d p.id == 0
+
+/-- `reconcileOtherPartitions(ctx, now)` with `now` in milliseconds -/
+def reconcileOthersMs (d : PDesc) (c : Cfg) (nowMs : Int) : Except Err (Option PDesc) :=
+  if d.parts.any (deletableMs d c nowMs) then .ok (some { d with parts := d.parts.filter (fun p => !deletableMs d c nowMs p) })
+  else .ok none
+
+/-- `reconcileOwnedPartition(ctx, now)` with `now` in milliseconds -/
+def reconcileOwnedMs (d : PDesc) (c : Cfg) (nowMs : Int) : Except Err (Option PDesc) :=
+  match d.get? c.pid with
+  | none => .error .partitionDoesNotExist
+  | some p =>
+    if p.state == sPending && ownersCountUpdatedBefore d c.pid (unixSec (nowMs - c.waitDur * 1000)) ≥ c.waitCount then
+      updatePartitionState d c.pid sActive (unixSec nowMs)
+    else .ok none
+
 /-- `stopping` -/
 def stopping (d : PDesc) (c : Cfg) (removeOwnerOnShutdown : Bool) : Except Err (Option PDesc) :=
   if removeOwnerOnShutdown then .ok (removeOwner d c.ownerID) else .ok none
